@@ -1,0 +1,40 @@
+//go:build verif
+
+package taskctl
+
+import (
+	"sync/atomic"
+	"time"
+
+	"github.com/taskctl/taskctl/pkg/runner"
+)
+
+// Verification hooks, only compiled with the build tag "verif".
+//
+// They change timing only: the poll pause of new schedulers can be shortened and a harness-owned
+// task runner is told about every iteration boundary of the scheduler loop (where it may block).
+
+// VerifPause, if > 0, replaces the poll pause (nanoseconds) of every Scheduler created afterwards.
+var VerifPause int64
+
+// VerifLoopHook is called with the scheduler's task runner at the top of every iteration of the
+// scheduler loop (exit == false) and once after the loop has ended (exit == true).
+var VerifLoopHook atomic.Value // of func(r runner.Runner, exit bool)
+
+func verifInit(s *Scheduler) {
+	if p := atomic.LoadInt64(&VerifPause); p > 0 {
+		s.pause = time.Duration(p)
+	}
+}
+
+func verifLoop(s *Scheduler) {
+	if f, ok := VerifLoopHook.Load().(func(r runner.Runner, exit bool)); ok && f != nil {
+		f(s.taskRunner, false)
+	}
+}
+
+func verifLoopExit(s *Scheduler) {
+	if f, ok := VerifLoopHook.Load().(func(r runner.Runner, exit bool)); ok && f != nil {
+		f(s.taskRunner, true)
+	}
+}
